@@ -27,6 +27,7 @@ import (
 	"runtime/metrics"
 	"sort"
 	"strings"
+	"sync/atomic"
 	"syscall"
 	"time"
 
@@ -100,6 +101,12 @@ func repeat(unit []byte, n int, tail []byte) []byte {
 }
 
 const maxPacket = 10485760
+
+// spinCPULimit: CPU time one decode may use before the batch child gives up on it: twice the
+// per-case bound of 5 s per MiB + 5 s (process CPU time, so GC and the harness count too).
+func spinCPULimit(inputLen int) time.Duration {
+	return 2 * (5*time.Second + time.Duration(inputLen)*5*time.Second/(1<<20))
+}
 
 // bombs returns nesting bombs; each is placed under the given tag.
 func bombs(tag int, thorough bool) map[string]func() []byte {
@@ -239,6 +246,48 @@ func genCases(seed int64, thorough bool, tis []*tinfo) []hcase {
 				if ti.e.Name == "requestf.ResponsePacket" {
 					cases = append(cases, hcase{entry: "unpack", ti: ti, kind: "bomb-skip:" + name, what: "response frame with a " + name + " nesting in an unknown field", bomb: func() []byte { return frame(build()) }})
 				}
+			}
+		}
+		// hostile lengths inside an UNKNOWN field (the skip path sizes it from the announced length
+		// alone): the usual extremes, and negative lengths that would move the reader back onto the
+		// field's own head or to the start of the input
+		{
+			var prefix []byte
+			for _, f2 := range ti.s.Fields {
+				if f2.Tag < free {
+					prefix = rc.EncodeValue(prefix, f2.T, rc.DefaultOf(f2), f2.Tag, rc.EncOpt{})
+				}
+			}
+			type shape struct {
+				wire int
+				pre  []byte // between the head and the length
+				body []byte
+			}
+			for _, sh := range []shape{{rc.TSimpleList, []byte{0x00}, []byte{1, 2, 3}}, {rc.TList, nil, []byte{0x0c}}, {rc.TMap, nil, []byte{0x0c, 0x1c}}} {
+				head := rc.AppendHead(nil, sh.wire, free)
+				for _, w := range []int{rc.TByte, rc.TShort, rc.TInt} {
+					own := len(head) + len(sh.pre) + len(rc.AppendIntWidth(nil, -1, w, 0))
+					vals := []int64{-1, -2, -3, int64(-own), int64(-own - 1), int64(-own + 1), int64(-own - len(prefix)), int64(-len(sh.body)), -2147483648, 2147483647, int64(len(sh.body) + 1), 16777216}
+					for _, nl := range vals {
+						if (w == rc.TByte && (nl < -128 || nl > 127)) || (w == rc.TShort && (nl < -32768 || nl > 32767)) {
+							continue
+						}
+						d := append(append(append(append([]byte(nil), prefix...), head...), sh.pre...), rc.AppendIntWidth(nil, nl, w, 0)...)
+						d = append(d, sh.body...)
+						cases = append(cases, hcase{entry: "struct:" + ti.e.Name, ti: ti, kind: fmt.Sprintf("skip-len:%s=%d", rc.TypeName(sh.wire), nl), what: fmt.Sprintf("unknown %s field (tag %d) announcing length %d in a %s", rc.TypeName(sh.wire), free, nl, rc.TypeName(w)), bytes: d})
+						if ti.e.Name == "requestf.RequestPacket" {
+							cases = append(cases, hcase{entry: "invoke", ti: ti, kind: fmt.Sprintf("skip-len:%s=%d", rc.TypeName(sh.wire), nl), what: fmt.Sprintf("request with an unknown %s field announcing length %d", rc.TypeName(sh.wire), nl), bytes: frame(d)})
+						}
+						if ti.e.Name == "requestf.ResponsePacket" {
+							cases = append(cases, hcase{entry: "unpack", ti: ti, kind: fmt.Sprintf("skip-len:%s=%d", rc.TypeName(sh.wire), nl), what: fmt.Sprintf("response with an unknown %s field announcing length %d", rc.TypeName(sh.wire), nl), bytes: frame(d)})
+						}
+					}
+				}
+			}
+			for _, nl := range []int64{-1, -5, -9, int64(-9 - len(prefix)), -2147483648, 2147483647, 4, 16777216} {
+				d := append(append([]byte(nil), prefix...), rc.AppendHead(nil, rc.TString4, free)...)
+				d = append(d, byte(nl>>24), byte(nl>>16), byte(nl>>8), byte(nl), 'a', 'b', 'c')
+				cases = append(cases, hcase{entry: "struct:" + ti.e.Name, ti: ti, kind: fmt.Sprintf("skip-len:String4=%d", nl), what: fmt.Sprintf("unknown String4 field (tag %d) announcing length %d", free, nl), bytes: d})
 			}
 		}
 		// random bytes
@@ -498,10 +547,33 @@ func main() {
 		cases := genCases(seed, thorough, tis)
 		from, to := vlib.ChildRange()
 		wal := vlib.OpenWAL()
+		// a decode that never returns: decided on the CPU time the process has burnt since the case
+		// began (a logical bound, independent of how loaded the machine is); exit 97 is read by the
+		// parent as "hang" at the case in the write-ahead file
+		var curCase, curLimit int64 = -1, int64(spinCPULimit(maxPacket))
+		go func() {
+			last, startCPU := int64(-1), time.Duration(0)
+			for {
+				time.Sleep(200 * time.Millisecond)
+				c, cpu := atomic.LoadInt64(&curCase), procCPU()
+				if c != last {
+					last, startCPU = c, cpu
+					continue
+				}
+				if c >= 0 && cpu-startCPU > time.Duration(atomic.LoadInt64(&curLimit)) {
+					fmt.Fprintf(os.Stderr, "fatal error: the decode of one input has used %v of CPU time without returning\n", cpu-startCPU)
+					os.Exit(97)
+				}
+			}
+		}()
 		for i := from; i < to && i < len(cases); i++ {
 			wal.Mark(i)
+			atomic.StoreInt64(&curLimit, int64(spinCPULimit(maxPacket))) // while a lazily built input is being built
+			atomic.StoreInt64(&curCase, int64(i))
+			atomic.StoreInt64(&curLimit, int64(spinCPULimit(len(cases[i].input()))))
 			runCase(em, &cases[i])
 		}
+		atomic.StoreInt64(&curCase, -1)
 		wal.Done()
 		return
 	}
@@ -557,6 +629,9 @@ func main() {
 		if o.Kind == "hang" {
 			class = "hang"
 			why = "no return within the batch watchdog"
+		} else if o.Exit == 97 {
+			class = "hang"
+			why = "still decoding after the CPU-time bound"
 		}
 		run.Violation(class, c.entry+":"+strings.SplitN(c.kind, "=", 2)[0]+":"+why, fmt.Sprintf("%s on %s (%d bytes) ended the process: %s (exit %d, cpu %v)", c.entry, c.what, len(in), why, o.Exit, o.CPU),
 			map[string]interface{}{"entry": c.entry, "mutation": c.kind, "what": c.what, "input_len": len(in), "input": hexClip(in), "exit": o.Exit, "stderr_tail": vlib.Tail(o.Stderr, 2500)})
